@@ -25,21 +25,16 @@ CHECKS = {
     },
 }
 
-OPS = {
-    "fs": ["CreateBucket", "PutVersioning", "PutObject", "DeleteObject", "CopyObject", "AppendObject", "CreateUpload",
-           "UploadPart", "UploadPartCopy", "CompleteUpload"],
-    # AppendObject is left out on the class-routed stack: with the open finding D-C11-append-versioned-drops-meta the
-    # class label of an appended version no longer tells in which store its prefix parts live
-    "classes": ["CreateBucket", "PutVersioning", "PutObject", "DeleteObject", "CopyObject", "CreateUpload", "UploadPart",
-                "UploadPartCopy", "CompleteUpload"],
-}
+OPS = ["CreateBucket", "PutVersioning", "PutObject", "DeleteObject", "CopyObject", "AppendObject", "CreateUpload", "UploadPart",
+       "UploadPartCopy", "CompleteUpload", "Transition"]
 
 
 def generate(ctx, stack, nprog, ncases, depth, seed, first_id):
-    subst = {"Ops": pithos.tla_set(OPS[stack]), "GenDepth": str(depth), "Stack": '"%s"' % stack, "NCases": str(ncases)}
+    subst = {"Ops": pithos.tla_set(OPS), "GenDepth": str(depth), "Stack": '"%s"' % stack, "NCases": str(ncases)}
     r = ctx.tlc("IntegrityGen", "Integrity.Gen.cfg", workers=1, simulate="num=%d" % nprog, depth=depth + 1, seed=seed,
                 timeout=600, count_mc=False, subst=subst)
     progs = [p for p in r.printed if isinstance(p, dict) and "calls" in p]
+    ctx.log("GEN %s: %d programs, %.1fs" % (stack, len(progs), r.wall))
     if len(progs) < nprog:
         raise vlib.Infra("case generation produced %d of %d programs (%s)\n%s" % (len(progs), nprog, r.outcome, r.output[-2000:]))
     ctx.transitions += r.generated
@@ -83,6 +78,7 @@ def validate(ctx, groups, label):
         ctx.transitions += r.generated
         ctx.states += r.distinct
         consumed = max(r.depth - 1, 0)
+        ctx.log("TV %s round %d: %d of %d lines consumed, %.1fs" % (label, rounds, consumed, len(flat), r.wall))
         recs = [d for d in r.printed if isinstance(d, dict) and d.get("what") == "validate"]
         for d in recs:
             d["line"] = flat[d["l"] - 1]
